@@ -152,6 +152,9 @@ def rand_protein_seq(r):
     from vlib import refgen
     n = r.randrange(4, 36)
     body = refgen.rand_protein(r, n, kr_rate=0.25, extra='U' if r.random() < 0.2 else '')
+    if r.random() < 0.3:
+        # glycine / alanine rich: products whose mass is far below what their length suggests
+        body = ''.join((r.choice('GGGGGAAS') if (c not in 'KR' or r.random() < 0.6) else c) for c in body)
     body = ''.join('L' if (c == 'I' and r.random() < 0.3) else c for c in body)
     if r.random() < 0.35:
         # a trypsin-exception motif, so that the exception changes the digest
@@ -178,7 +181,7 @@ def rand_cfg(r, rules):
         exc = 'auto'
     lo = r.randrange(1, 8)
     return dict(rule=rule, exc=exc, misc=r.randrange(0, 4), min_len=lo, max_len=r.randrange(max(lo, 6), 26),
-                min_mw=r.choice(['0.00005', '300.00005', '500.00005', '800.00005']))
+                min_mw=r.choice(['0.00005', '300.00005', '500.00005', '800.00005', f'{r.randrange(250, 1300)}.00005']))
 
 
 def spec_cfg(p):
@@ -210,6 +213,16 @@ def pool_level(rep, tier, work):
         d = os.path.join(work, f'ref{i}')
         paths = ref.write(d)
         c1, c2 = rand_cfg(r, rules), rand_cfg(r, rules)
+        rich = [''.join(p['seq']) for p in prots if sum(ch in 'GA' for ch in p['seq']) > 0.5 * len(p['seq'])]
+        if rich:
+            # a mass limit just below L x (mass of free glycine) for the length L of an actual Gly/Ala-rich tryptic product:
+            # its true mass (residue masses + water) lies below the limit
+            import re as _re
+            prods = [x for q in rich for x in _re.findall(r'[^KR*X]*[KR]', q) if len(x) >= 8]
+            if prods:
+                L = len(r.choice(prods))
+                c1['rule'] = 'trypsin'; c1['exc'] = r.choice(['', 'auto'])
+                c1['min_mw'] = f'{75 * L - 4}.00005'; c1['min_len'] = min(c1['min_len'], L); c1['max_len'] = max(c1['max_len'], L)
         if i % 2 == 1:
             # the second parameter set differs from the first in exactly one field
             if i % 4 == 1:
